@@ -43,14 +43,11 @@ func ProvideCalculateVoteResultsAndVotingPowerFn(authKeeper AccountKeeper, staki
 		// <sunrise>
 		// Deduct shareclass module's delegations
 		shareclassAddr := authKeeper.GetModuleAddress(shareclasstypes.ModuleName)
-		shareclassVP := math.LegacyZeroDec()
 		err = stakingKeeper.IterateDelegations(ctx, shareclassAddr, func(index int64, delegation sdk.DelegationI) (stop bool) {
 			valAddrStr := delegation.GetValidatorAddr()
 			if val, ok := validators[valAddrStr]; ok {
 				val.DelegatorDeductions = val.DelegatorDeductions.Add(delegation.GetShares())
 				validators[valAddrStr] = val
-
-				shareclassVP = shareclassVP.Add(delegation.GetShares())
 			}
 			return false
 		})
@@ -148,7 +145,9 @@ func ProvideCalculateVoteResultsAndVotingPowerFn(authKeeper AccountKeeper, staki
 		// <sunrise>
 		// To cancel the effect to quorum, we need to adjust the total voting power.
 		// It should not be totalVoterPower / totalBonded < quorum.
-		// totalVoterPowerCustom / totalBonded = (totalVoterPower - shareclassVotingPower) / (totalBonded - shareclassBonded)
+		// totalVoterPowerCustom / totalBonded = totalVoterPower / (totalBonded - shareclassBonded)
+		// (totalVoterPower never contains the shareclass module's voting power: its delegations are deducted from
+		// every validator above and its own votes are skipped, so it must not be subtracted a second time)
 		shareclassBonded, err := stakingKeeper.GetDelegatorBonded(ctx, shareclassAddr)
 		if err != nil {
 			return math.LegacyDec{}, nil, err
@@ -158,10 +157,9 @@ func ProvideCalculateVoteResultsAndVotingPowerFn(authKeeper AccountKeeper, staki
 			return math.LegacyDec{}, nil, err
 		}
 		if !totalBonded.IsZero() {
-			numerator := totalVP.Sub(shareclassVP)
 			denominator := totalBonded.Sub(shareclassBonded)
 
-			numerator = numerator.MulInt(totalBonded)
+			numerator := totalVP.MulInt(totalBonded)
 			totalVP = numerator.Quo(math.LegacyNewDecFromInt(denominator))
 		}
 		// <sunrise />
